@@ -212,6 +212,13 @@ def main():
     S.model_check(rep, MODELS[a.tier])
     # the property is not vacuous: a faulty variant of the model is refuted
     S.model_refutes(rep, 'HierBad', 'MC_HierBad_nocheck.cfg', ['OutfileAccepted'])
+    # composition of the phases (Session.tla): hand-over, report, file
+    S.model_check(rep, [('Session', 'MC_Session_%s.cfg' % st, 300)
+                        for st in ('ddmin', 'hierarchical', 'hybrid')])
+    S.model_refutes(rep, 'Session', 'MC_Session_bad_stale-handover.cfg',
+                    ['HandOver'])
+    S.model_refutes(rep, 'Session', 'MC_Session_bad_stale-result.cfg',
+                    ['FileIsCurrent'])
     r = random.Random(common.seed() + 1)
     cfgs = make_configs(r, NRUNS[a.tier])
     items = S.validate(rep, S.execute(cfgs, label='c01'))
